@@ -436,6 +436,9 @@ def gen_patch(rng, model, params, world_labels, ids, allow_cf=True, in_data=Fals
             lines.insert(k, {"raw": f".cfi_adjust_cfa_offset {d}"})
             # ... at least the instruction at k+1 is enclosed
             lines.insert(rng.randrange(k + 2, len(lines) + 1), {"raw": f".cfi_adjust_cfa_offset -{d}"})
+    if params.get("patch_align_p", 0.0) and rng.random() < params["patch_align_p"] and lines:
+        # an alignment requirement of the patch's own
+        lines.insert(rng.randrange(len(lines)), {"raw": f".align {rng.choice([2, 4, 8])}"})
     if rng.random() < 0.15 and not in_data:
         # trailing label: forces a new block after the patch
         nm = f"{tpre}{len(own)}"
@@ -493,7 +496,7 @@ def patch_shape_tokens(pdesc, isa):
     for ln in pdesc["lines"]:
         if "label" in ln:
             toks.append(Tok("label", "x", name="(patch)" + ln["label"]))
-        elif "raw" in ln and ln["raw"].startswith(".cfi"):
+        elif "raw" in ln and (ln["raw"].startswith(".cfi") or ln["raw"].startswith(".align")):
             continue
         elif "raw" in ln:
             toks.append(Tok("data", "x", b=b"\0"))
@@ -502,6 +505,46 @@ def patch_shape_tokens(pdesc, isa):
         else:
             toks.append(Tok("insn", "x", b=b"\0", ikind=v.kind(ln), target=ln.get("t") if not ln.get("ttemp") else None))
     return toks
+
+
+def make_exotic(rng, desc):
+    """Turn a module descriptor into one with gaps before/between blocks,
+    uninitialized tails (with and without blocks in them), zero-sized and
+    overlapping blocks (C10 workload only; such modules only see empty
+    sessions)."""
+    desc = dict(desc)
+    desc["exotic"] = True
+    k = 0
+    for sec in desc["sections"]:
+        for u in sec["units"]:
+            for b in u["blocks"]:
+                if rng.random() < 0.25:
+                    b["gap_before"] = rng.randint(1, 5)
+                    b.pop("align", None)
+            size = sum(_block_size(desc["isa"], b) + b.get("gap_before", 0) for b in u["blocks"])
+            if rng.random() < 0.5:
+                u["tail_uninit"] = rng.randint(1, 12)
+                if rng.random() < 0.6:
+                    u["uninit_blocks"] = [rng.randint(1, 4) for _ in range(rng.randint(1, 2))]
+                    u["uninit_gap"] = rng.choice([0, 0, 2])
+            ovs = []
+            for _ in range(rng.choice([0, 0, 1, 2])):
+                if size:
+                    k += 1
+                    ovs.append({"off": rng.randrange(size), "size": rng.choice([0, 0, 1, 2, 3]), "kind": "data", "label": f"OV{k}" if rng.random() < 0.5 else None})
+            if ovs:
+                u["overlays"] = ovs
+    # addresses: keep units apart
+    addr = 0x1000
+    for sec in desc["sections"]:
+        for u in sec["units"]:
+            u["addr"] = addr
+            addr += sum(_block_size(desc["isa"], b) + b.get("gap_before", 0) for b in u["blocks"]) + u.get("tail_uninit", 0) + rng.choice([0, 0, 3])
+            for b in u["blocks"]:
+                b.pop("align", None)
+        addr = (addr + 0xFFF) & ~0xFFF
+    desc["alignment_table"] = desc.get("alignment_table", True)
+    return desc
 
 
 def module_desc_ok(desc):
